@@ -36,4 +36,20 @@ def parents (T : BCoord → Prop) : BCoord → Prop := fun b => ∃ h, T h ∧ p
 def updateLevel (B : Int) (stored : Vol) (below' : Vol) (P : BCoord → Prop) [DecidablePred P] : Vol :=
   fun x y z => if P (blockOf B x y z) then level1 below' x y z else stored x y z
 
+/-- `Block.Downres(octants)` on one lower-resolution block.  `given o`: octant `o` was handed in (non-nil);
+    `solid o = some l`: that octant is a solid block of label `l`; `octOf`: the octant a voxel of the block lies in.
+    `needsAll = true` is the current shape of `setBlank` (solid shortcut only with eight given solid octants of
+    one label); `false` is the shape in which a nil octant counts as a solid label-0 octant. -/
+def blockDownresWith (needsAll : Bool) (stored below' : Vol) (given : Nat → Bool) (solid : Nat → Option Nat)
+    (octOf : Int → Int → Int → Nat) : Vol :=
+  let slow : Vol := fun x y z => if given (octOf x y z) then level1 below' x y z else stored x y z
+  if needsAll then
+    match solid 0 with
+    | some l => if (List.range 8).all (fun o => given o && solid o == some l) then fun _ _ _ => l else slow
+    | none => slow
+  else
+    if (List.range 8).all (fun o => if given o then solid o == some 0 else true) then fun _ _ _ => 0 else slow
+
+def blockDownres := blockDownresWith Gen.downresSolidNeedsAllOctants
+
 end Dvid.Pyramid
